@@ -249,9 +249,12 @@ RfExchange(c, ans) ==
      THEN /\ goto(c, "redirRemoveOld") /\ UNCHANGED <<nextTok, rtValid, minted>>
           /\ loc' = [loc EXCEPT ![c].faulted = TRUE]
           /\ faults' = IF ans = "failBefore" THEN faults + 1 ELSE faults
-     ELSE IF ans \in {"failAfter", "badToken"}
+     ELSE IF ans = "failAfter"
      THEN /\ goto(c, "redirRemoveOld") /\ faults' = faults + 1 /\ UNCHANGED <<nextTok, rtValid, minted>>
           /\ loc' = [loc EXCEPT ![c].faulted = TRUE]
+     ELSE IF ans = "badToken"       \* the answer arrives, is merged, the login state is read, and only then validation fails
+     THEN /\ goto(c, "rfGetAuth") /\ faults' = faults + 1 /\ UNCHANGED <<nextTok, rtValid, minted>>
+          /\ loc' = [loc EXCEPT ![c].faulted = TRUE, ![c].new = [ex |-> FALSE, gen |-> -1, exp |-> 0, rt |-> 0]]
      ELSE /\ nextTok <= MaxTok
           /\ loc' = [loc EXCEPT ![c].new = [ex |-> TRUE, gen |-> nextTok, exp |-> now + TokLife,
                                            rt |-> IF ans = "okRotate" THEN nextTok ELSE loc[c].tok.rt]]
@@ -263,7 +266,7 @@ RfExchange(c, ans) ==
 
 RfGetAuth(c) ==
   /\ pcs[c] = "rfGetAuth"
-  /\ goto(c, "rfJwks") /\ loc' = mark(c)
+  /\ (IF loc[c].new.gen = -1 THEN goto(c, "redirRemoveOld") ELSE goto(c, "rfJwks")) /\ loc' = mark(c)
   /\ Log(StepRec(c, "none", "", ""))
   /\ UNCHANGED <<now, store, nextSid, nextTok, nextCode, codes, rtValid, minted, out, cookies, creator, removed, dead, faults, okLog, exLog>>
 
